@@ -51,6 +51,30 @@ Theorem C25_spelling_invariance_abs_trailing_slash :
 Proof. intros. apply abs_trailing_slash_same; assumption. Qed.
 Print Assumptions C25_spelling_invariance_abs_trailing_slash.
 
+(* What a RELATIVE spelling does (any non-empty path string not starting with '/': "x", "./x", "x/", ".", "../x"; the working directory
+   is "/c1/../cn"): the same, except that an ignore spec found during the walk applies only to the directory it was found in (and to the
+   pruning of that directory's immediate sub-directories), not to the directories below.  [ohit] = the outer specs matched against the
+   absolute path of the file, [oname] = the yielded (normalised, still relative) name. *)
+Theorem C25_walk_spec_rel :
+  forall (matches : nat -> list text -> bool) (cwd : text) (ignore_files : bool) (outer : list specrec) (exts : list text)
+         (cw : list text) (p : text) (d : dir),
+    cw <> [] -> names_ok cw -> cwd = slashcat cw -> p <> [] -> isabs p = false -> wf_dir d ->
+    forall rel out,
+      In (rel, out) (iter_files_in_path matches cwd ignore_files outer exts d p) <->
+      exists cs f, rel = cs ++ [f] /\ out = oname p (cs ++ [f])
+                   /\ selected matches ignore_files exts (ohit matches cwd outer p) false d cs f.
+Proof. intros. eapply walk_spec_rel_lemma; eassumption. Qed.
+Print Assumptions C25_walk_spec_rel.
+
+(* The degenerate reading never loses a file: against the same outer specs, everything the absolute reading selects the relative
+   reading selects too (the defect only ever ADDS files that an inner ignore file should have excluded). *)
+Theorem C25_relative_reading_selects_superset :
+  forall (matches : nat -> list text -> bool) (ignore_files : bool) (exts : list text) (outer_hit : list text -> bool)
+         (d : dir) (cs : list text) (f : text),
+    selected matches ignore_files exts outer_hit true d cs f -> selected matches ignore_files exts outer_hit false d cs f.
+Proof. intros. apply selected_mono; assumption. Qed.
+Print Assumptions C25_relative_reading_selects_superset.
+
 (* ---------------------------------------------------------------------------------------------------------------------------- *)
 (* Spelling invariance in general is FALSE of the faithful model (finding F8).
 
